@@ -103,7 +103,7 @@ VolOfSlot(slot) == IF \E v \in DOMAIN disk : disk[v].g.slot = slot
 CallVol(op, a) ==
   CASE op = "open_volume" -> VolOfSlot(a.idx)
     [] op \in {"close_volume", "open_root", "label"} -> IF HasH(ovols, a.v) THEN RecOf(ovols, a.v).vol ELSE 0
-    [] op \in {"open_dir", "change_dir", "close_dir", "find", "iterate", "iterate_lfn", "open_file", "delete", "mkdir"} ->
+    [] op \in {"open_dir", "change_dir", "close_dir", "find", "iterate", "iterate_lfn", "open_file", "delete", "mkdir", "ext_rename"} ->
          IF HasH(odirs, a.d) THEN RecOf(odirs, a.d).vol ELSE 0
     [] op \in {"read", "write", "seek_start", "seek_end", "seek_cur", "length", "offset", "eof", "flush", "close_file"} ->
          IF HasH(ofiles, a.f) THEN RecOf(ofiles, a.f).vol ELSE 0
@@ -120,7 +120,7 @@ TCall ==
             IF "panicked" \in DOMAIN a THEN dur
             ELSE IF e.op = "write" /\ HasH(ofiles, a.f)
                  THEN LET f == RecOf(ofiles, a.f) IN [dur EXCEPT ![f.vol] = {x \in @ : ~(x.dir = f.dir /\ x.n = f.n)}]
-            ELSE IF e.op \in {"delete", "open_file"} /\ HasH(odirs, a.d) /\ a.nmok /\ (e.op = "delete" \/ a.mode \in {"Truncate", "CreateOrTruncate"})
+            ELSE IF e.op \in {"delete", "open_file", "ext_rename"} /\ HasH(odirs, a.d) /\ a.nmok /\ (e.op \in {"delete", "ext_rename"} \/ a.mode \in {"Truncate", "CreateOrTruncate"})
                  THEN LET r == RecOf(odirs, a.d) IN [dur EXCEPT ![r.vol] = {x \in @ : ~(x.dir = r.id /\ x.n = a.nm)}]
             ELSE dur
   /\ l' = l + 1
@@ -207,7 +207,9 @@ BlockWriteOK(c, pd, d, e) ==
         [] OTHER -> FALSE)
 
 WriteLegalWhy(c, pd, d, e, v) ==
-  IF v = 0 THEN "outside-any-volume:" \o e.reg
+  \* (a write the application makes itself through `VolumeManager::device` is not the library's)
+  IF c.op = "ext_rename" THEN "ok"
+  ELSE IF v = 0 THEN "outside-any-volume:" \o e.reg
   ELSE IF c.vol # v THEN "other-volume"
   ELSE IF e.reg \in {"fat1", "fat2"} THEN (IF FatWriteOK(c, pd, d, e) THEN "ok" ELSE "fat-entry")
   ELSE IF e.reg \in {"root", "data"} THEN (IF BlockWriteOK(c, pd, d, e) THEN "ok" ELSE IF e.trk THEN "block-part" ELSE "untracked-cluster")
@@ -474,6 +476,15 @@ TRet ==
                 /\ viol' = Report(StateChecks(op, e.obs, e.fateq))
            ELSE /\ UNCHANGED apiVars
                 /\ viol' = Report({<<ResProp(op, refs, r), "Result", op \o ":" \o r.k \o ":" \o r.e>>})
+        /\ dur' = dur /\ minfo' = minfo
+     \/ /\ op = "ext_rename"
+        \* the application replaced the name bytes of a closed file's entry on the medium (through `VolumeManager::device`):
+        \* the model's directory follows; every later listing / lookup / open is judged against the medium as it is now
+        /\ LET rr == RecOf(odirs, a.d)
+               i == IF HasH(odirs, a.d) /\ a.nmok THEN EntIdx(rr.vol, rr.id, a.nm) ELSE 0
+           IN /\ dirs' = IF ok /\ i # 0 THEN [dirs EXCEPT ![rr.vol][rr.id][i].n = a.to] ELSE dirs
+              /\ UNCHANGED <<ovols, odirs, ofiles, lim>>
+              /\ viol' = Report(StateChecks(op, e.obs, e.fateq))
         /\ dur' = dur /\ minfo' = minfo
      \/ /\ op = "find"
         /\ LET refs == FindRefs(a.d, a.nm, a.nmok) IN
